@@ -137,80 +137,115 @@ def importChain (proj : Project) (s : St) : Val → List Name → Option Val
   | .mod t, y :: ys => (match importFromAttr proj s t y with | some w => importChain proj s w ys | none => none)
   | _, _ :: _ => none
 
+/-- `import a.b.c [as x]` -/
+def execImport (proj : Project) (imp : St → Path → St) (m : Nat) (target : Path) (asname : Option Name)
+    (x : St × Option Ns) : St × Option Ns :=
+  if x.1.err then x else
+  let s1 := imp x.1 target
+  if s1.err then (s1, x.2) else
+  match target with
+  | [] => fail (s1, x.2)
+  | h :: rest =>
+    match modIdx proj [h] with
+    | none => fail (s1, x.2)
+    | some top =>
+      match asname with
+      | none => bind s1 m x.2 h (.mod top)
+      | some a =>
+        match importChain proj s1 (.mod top) rest with
+        | none => fail (s1, x.2)
+        | some v => bind s1 m x.2 a v
+
+/-- `from M import n [as x]` -/
+def execImportFrom (proj : Project) (imp : St → Path → St) (m : Nat) (level : Nat) (modname : Path) (name : Name)
+    (asname : Option Name) (x : St × Option Ns) : St × Option Ns :=
+  if x.1.err then x else
+  match Imports.pyAbsName proj m level modname with
+  | none => fail x                                               -- ImportError: beyond top-level package
+  | some T =>
+    let s1 := imp x.1 T
+    if s1.err then (s1, x.2) else
+    match modIdx proj T with
+    | none => fail (s1, x.2)
+    | some t =>
+      let s2 := fromlistOne proj imp T t s1 name
+      if s2.err then (s2, x.2) else
+      match importFromAttr proj s2 t name with
+      | none => fail (s2, x.2)                                   -- ImportError: cannot import name
+      | some v => bind s2 m x.2 (asname.getD name) v
+
+/-- `_handle_fromlist(module, ['*'])`: the submodules named in `__all__` are imported -/
+def starPrep (proj : Project) (imp : St → Path → St) (T : Path) (t : Nat) (s1 : St) : St :=
+  match allOf s1 t with
+  | some l => l.foldl (fromlistOne proj imp T t) s1
+  | none => s1
+
+/-- `import_all_from`: `__all__`, else the keys of `__dict__` that do not start with an underscore -/
+def starNamesPy (s2 : St) (t : Nat) : List Name :=
+  match allOf s2 t with
+  | some l => l
+  | none => ((nsOf s2 t).map (fun e => e.1)).filter (fun n => n.head? != some '_')
+
+/-- `from M import *` -/
+def execImportStar (proj : Project) (imp : St → Path → St) (m : Nat) (level : Nat) (modname : Path)
+    (x : St × Option Ns) : St × Option Ns :=
+  if x.1.err then x else
+  if x.2.isSome then fail x else                                 -- SyntaxError: import * only allowed at module level
+  match Imports.pyAbsName proj m level modname with
+  | none => fail x
+  | some T =>
+    let s1 := imp x.1 T
+    if s1.err then (s1, x.2) else
+    match modIdx proj T with
+    | none => fail (s1, x.2)
+    | some t =>
+      if (starPrep proj imp T t s1).err then (starPrep proj imp T t s1, x.2) else
+      ((starNamesPy (starPrep proj imp T t s1) t).foldl (starBind m t) (starPrep proj imp T t s1), x.2)
+
+/-- `def f` / `x = <const>`: a new object, identified by its definition site -/
+def execDef (m : Nat) (cp : Path) (name : Name) (x : St × Option Ns) : St × Option Ns :=
+  if x.1.err then x else bind x.1 m x.2 name (.obj m (cp ++ [name]))
+
+/-- `__all__ = [...]` -/
+def execAll (m : Nat) (names : List Name) (x : St × Option Ns) : St × Option Ns :=
+  if x.1.err then x else
+  match x.2 with
+  | none => ({ x.1 with alls := x.1.alls.set m (some names) }, x.2)
+  | some _ => x
+
+/-- the class statement once its body has run in the namespace `fr1` (state `s1`): create the class
+object and bind it in the enclosing frame `fr` -/
+def finishClass (m : Nat) (cp : Path) (name : Name) (hs : List Nat) (fr : Option Ns) (s1 : St) (fr1 : Option Ns) :
+    St × Option Ns :=
+  if s1.err then (s1, fr) else
+  let h := s1.heap.length
+  let s2 := { s1 with heap := s1.heap ++ [⟨m, cp ++ [name], hs, fr1.getD []⟩] }
+  if (mroOf s2 h).isNone then fail (s2, fr) else                 -- TypeError: MRO conflict / duplicate base
+  bind s2 m fr name (.cls h)
+
+/-- the base classes of a class statement, evaluated in the enclosing frame (`none`: NameError,
+AttributeError, or not a class) -/
+def evalBases (s : St) (m : Nat) (fr : Option Ns) (bases : List Path) : Option (List Nat) :=
+  let hs := (bases.map (evalDotted s m fr)).filterMap (fun v => match v with | some (.cls h) => some h | _ => none)
+  if hs.length != bases.length then none else some hs
+
 mutual
 /-- one statement of module `m`, executed at the definition-site chain `cp` with the class-body
 locals `fr` (`none` at module level); `imp` is `import_` (imports a module by absolute name) -/
 def execStmt (proj : Project) (imp : St → Path → St) (m : Nat) : Path → Stmt → St × Option Ns → St × Option Ns
-  | _, .importMod target asname, (s, fr) =>
-    if s.err then (s, fr) else
-    let s1 := imp s target
-    if s1.err then (s1, fr) else
-    match target with
-    | [] => fail (s1, fr)
-    | h :: rest =>
-      match modIdx proj [h] with
-      | none => fail (s1, fr)
-      | some top =>
-        match asname with
-        | none => bind s1 m fr h (.mod top)
-        | some x =>
-          match importChain proj s1 (.mod top) rest with
-          | none => fail (s1, fr)
-          | some v => bind s1 m fr x v
-  | _, .importFrom level modname name asname, (s, fr) =>
-    if s.err then (s, fr) else
-    match Imports.pyAbsName proj m level modname with
-    | none => fail (s, fr)                                       -- ImportError: beyond top-level package
-    | some T =>
-      let s1 := imp s T
-      if s1.err then (s1, fr) else
-      match modIdx proj T with
-      | none => fail (s1, fr)
-      | some t =>
-        let s2 := fromlistOne proj imp T t s1 name
-        if s2.err then (s2, fr) else
-        match importFromAttr proj s2 t name with
-        | none => fail (s2, fr)                                  -- ImportError: cannot import name
-        | some v => bind s2 m fr (asname.getD name) v
-  | _, .importStar level modname, (s, fr) =>
-    if s.err then (s, fr) else
-    if fr.isSome then fail (s, fr) else                          -- SyntaxError: import * only allowed at module level
-    match Imports.pyAbsName proj m level modname with
-    | none => fail (s, fr)
-    | some T =>
-      let s1 := imp s T
-      if s1.err then (s1, fr) else
-      match modIdx proj T with
-      | none => fail (s1, fr)
-      | some t =>
-        let s2 : St := match allOf s1 t with
-          | some l => l.foldl (fromlistOne proj imp T t) s1
-          | none => s1
-        if s2.err then (s2, fr) else
-        let names : List Name := match allOf s2 t with
-          | some l => l
-          | none => ((nsOf s2 t).map (fun e => e.1)).filter (fun n => n.head? != some '_')
-        (names.foldl (starBind m t) s2, fr)
-  | cp, .classDef name bases body, (s, fr) =>
-    if s.err then (s, fr) else
-    let bvals := bases.map (evalDotted s m fr)
-    let hs := bvals.filterMap (fun v => match v with | some (.cls h) => some h | _ => none)
-    if hs.length != bases.length then fail (s, fr) else          -- NameError / AttributeError / not a class
-    let (s1, fr1) := execStmts proj imp m (cp ++ [name]) body (s, some [])
-    if s1.err then (s1, fr) else
-    let h := s1.heap.length
-    let s2 := { s1 with heap := s1.heap ++ [⟨m, cp ++ [name], hs, fr1.getD []⟩] }
-    if (mroOf s2 h).isNone then fail (s2, fr) else               -- TypeError: MRO conflict / duplicate base
-    bind s2 m fr name (.cls h)
-  | cp, .funcDef name, (s, fr) =>
-    if s.err then (s, fr) else bind s m fr name (.obj m (cp ++ [name]))
-  | cp, .assign name _, (s, fr) =>
-    if s.err then (s, fr) else bind s m fr name (.obj m (cp ++ [name]))
-  | _, .allAssign names, (s, fr) =>
-    if s.err then (s, fr) else
-    match fr with
-    | none => ({ s with alls := s.alls.set m (some names) }, fr)
-    | some _ => (s, fr)
+  | _, .importMod target asname, x => execImport proj imp m target asname x
+  | _, .importFrom level modname name asname, x => execImportFrom proj imp m level modname name asname x
+  | _, .importStar level modname, x => execImportStar proj imp m level modname x
+  | cp, .classDef name bases body, x =>
+    if x.1.err then x else
+    match evalBases x.1 m x.2 bases with
+    | none => fail x
+    | some hs =>
+      let r := execStmts proj imp m (cp ++ [name]) body (x.1, some [])
+      finishClass m cp name hs x.2 r.1 r.2
+  | cp, .funcDef name, x => execDef m cp name x
+  | cp, .assign name _, x => execDef m cp name x
+  | _, .allAssign names, x => execAll m names x
 def execStmts (proj : Project) (imp : St → Path → St) (m : Nat) : Path → List Stmt → St × Option Ns → St × Option Ns
   | _, [], x => x
   | cp, st :: rest, x => execStmts proj imp m cp rest (execStmt proj imp m cp st x)
